@@ -452,3 +452,29 @@ package device
 // vacuity guards for the counting axioms and the invariants: these must NOT be provable
 //@ canary inv_not_contradictory [C01,C03]: forall d *Device :: !(Inv(d) && tableOK(d) && has(d.noteTracker, 30) && has(d.noteTracker, 31) && d.noteTracker[30] == d.noteTracker[31] && sounding[0][60])
 //@ canary counting_not_trivial [C01,C03]: forall d *Device :: counted(d) ==> d.activeNotesCounter[0][0] == 0
+
+// ---- construction: the configured defaults are the initial state (C04); wf, the dispatch tables and Inv are established
+
+// what an accepted configuration guarantees (ParseData's postcondition, C10) as far as the device needs it
+//@ pred cfgOK(c config.Config) :=
+//@   len(c.KeyMappings) >= 1 && c.Defaults.Mapping >= 0 && c.Defaults.Mapping < len(c.KeyMappings)
+//@   && c.Defaults.Channel >= 1 && c.Defaults.Channel <= 16 && c.Defaults.Velocity >= 1 && c.Defaults.Velocity <= 127
+//@   && modeOK(c.CollisionMode)
+
+//@ func NewDevice
+//@   requires cfgOK(cfg.Config)
+//@   requires forall ch byte, n byte :: !sounding[ch][n]
+//@   ensures [C04] result.octave == int8(cfg.Config.Defaults.Octave) && result.semitone == int8(cfg.Config.Defaults.Semitone)
+//@   ensures [C04] int(result.channel) + 1 == cfg.Config.Defaults.Channel && result.mapping == cfg.Config.Defaults.Mapping && int(result.velocity) == cfg.Config.Defaults.Velocity
+//@   ensures [C01,C04,C05] forall p *Device :: p != nil && pointsTo(p, result) ==> wf(p) && tableOK(p) && Inv(p)
+//@   ensures [C01] empty(result.keyTracker) && empty(result.noteTracker) && empty(result.analogNoteTracker)
+//@   loop 1 invariant ch <= 16 && activeNoteCounter != nil
+//@   loop 1 invariant forall c byte :: c < ch ==> has(activeNoteCounter, c) && activeNoteCounter[c] != nil && allocated(activeNoteCounter[c])
+//@   loop 1 invariant forall c1 byte, c2 byte :: c1 < ch && c2 < ch && c1 != c2 ==> activeNoteCounter[c1] != activeNoteCounter[c2]
+//@   loop 1 invariant forall c byte, n byte :: c < ch ==> activeNoteCounter[c][n] == 0
+//@   loop 2 invariant ch < 16 && note <= 128 && activeNoteCounter != nil && t != nil && allocated(t)
+//@   loop 2 invariant forall c byte :: c < ch ==> has(activeNoteCounter, c) && activeNoteCounter[c] != nil && allocated(activeNoteCounter[c]) && activeNoteCounter[c] != t
+//@   loop 2 invariant forall c1 byte, c2 byte :: c1 < ch && c2 < ch && c1 != c2 ==> activeNoteCounter[c1] != activeNoteCounter[c2]
+//@   loop 2 invariant forall c byte, n byte :: c < ch ==> activeNoteCounter[c][n] == 0
+//@   loop 2 invariant forall n byte :: t[n] == 0
+//@   safety [C04]
